@@ -2,6 +2,7 @@ package broker
 
 import (
 	"fmt"
+	"strings"
 
 	"github.com/mdzio/go-mqtt/verifrt/vsched"
 	"verif/engine/explore"
@@ -223,7 +224,11 @@ func c01sched(c *core.Ctx) {
 }
 
 // c08sched: retained updates concurrent to new subscriptions.
-func c08sched(c *core.Ctx) {
+func c08sched(c *core.Ctx) { c08schedFor(c, "C08", "") }
+
+// c08schedFor runs the retained-message scenarios (those whose name contains only, if
+// given) for a property: C17 shares the ones in which a connection's stream is at stake.
+func c08schedFor(c *core.Ctx, prop, only string) {
 	dev := 1
 	if c.Thorough() {
 		dev = 2
@@ -364,69 +369,74 @@ func c08sched(c *core.Ctx) {
 	}})
 	// the new subscriber's own outgoing ring is full: its processor has collected the
 	// retained message and waits for room for the SUBACK when the update arrives
-	scs = append(scs, scen{"subscriber with a full outgoing ring subscribes, retained update while its SUBACK waits", func() {
-		t := newTD()
-		p := t.connect("P", 0, 65535, false)
-		f := t.connect("F", 0, 65535, false)
-		s := t.connect("S", 256, 65535, false)
-		t.subscribe("S", "fill", 0)
-		p.rc.Send(&refcodec.Packet{Type: refcodec.PUBLISH, Topic: []byte("r"), Retain: true, QoS: 1, ID: 1, Payload: []byte(old)})
-		t.settleExcept()
-		for k := 0; k < 2; k++ {
-			f.rc.Send(bigPub("fill", 8000, byte(k)))
+	// (at QoS 1 the subscriber is sent a copy with an identifier of its own; at QoS 0 the stored
+	// message object itself is what its processor holds while it waits)
+	for _, rq := range []byte{1, 0} {
+		rq := rq
+		scs = append(scs, scen{fmt.Sprintf("subscriber with a full outgoing ring subscribes, retained update while its SUBACK waits (QoS %d)", rq), func() {
+			t := newTD()
+			p := t.connect("P", 0, 65535, false)
+			f := t.connect("F", 0, 65535, false)
+			s := t.connect("S", 256, 65535, false)
+			t.subscribe("S", "fill", 0)
+			p.rc.Send(&refcodec.Packet{Type: refcodec.PUBLISH, Topic: []byte("r"), Retain: true, QoS: rq, ID: 1, Payload: []byte(old)})
 			t.settleExcept()
-		}
-		// 16018 of 16384 bytes are taken; 359 more leave room for the SUBACK but not
-		// for the retained message
-		f.rc.Send(bigPub("fill", 350, 9))
-		t.settleExcept()
-		if vsched.Failed() {
-			return
-		}
-		vsched.Mark()
-		s.rc.Send(&refcodec.Packet{Type: refcodec.SUBSCRIBE, ID: 5, Topics: [][]byte{[]byte("r")}, QoSs: []byte{1}})
-		t.settleExcept()
-		p.rc.Send(&refcodec.Packet{Type: refcodec.PUBLISH, Topic: []byte("r"), Retain: true, QoS: 1, ID: 2, Payload: []byte("new")})
-		t.settleExcept()
-		// now the subscriber reads (its pipe holds 256 bytes at a time)
-		s.noRead = false
-		for i := 0; i < 8; i++ {
+			for k := 0; k < 2; k++ {
+				f.rc.Send(bigPub("fill", 8000, byte(k)))
+				t.settleExcept()
+			}
+			// 16018 of 16384 bytes are taken; 359 more leave room for the SUBACK but not
+			// for the retained message
+			f.rc.Send(bigPub("fill", 350, 9))
 			t.settleExcept()
-		}
-		if t.badStream() {
-			return
-		}
-		got := s.rc.Take()
-		if !hasType(got, refcodec.SUBACK) {
-			vsched.Failf("the SUBSCRIBE was not acknowledged: %s", Describe(got))
-			return
-		}
-		if !checkRetained("S", got, map[string]bool{old: true, "new": true}) {
-			return
-		}
-		sawNew, nRetained := false, 0
-		for _, pk := range publishesOn(got, "r") {
-			if string(pk.Payload) == "new" {
-				sawNew = true
+			if vsched.Failed() {
+				return
 			}
-			if pk.Retain {
-				nRetained++
+			vsched.Mark()
+			s.rc.Send(&refcodec.Packet{Type: refcodec.SUBSCRIBE, ID: 5, Topics: [][]byte{[]byte("r")}, QoSs: []byte{rq}})
+			t.settleExcept()
+			p.rc.Send(&refcodec.Packet{Type: refcodec.PUBLISH, Topic: []byte("r"), Retain: true, QoS: rq, ID: 2, Payload: []byte("new")})
+			t.settleExcept()
+			// now the subscriber reads (its pipe holds 256 bytes at a time)
+			s.noRead = false
+			for i := 0; i < 8; i++ {
+				t.settleExcept()
 			}
-		}
-		if nRetained != 1 || !sawNew {
-			vsched.Failf("the new subscription received %d messages with the retain flag and saw the update: %v: %s", nRetained, sawNew, Describe(publishesOn(got, "r")))
-			return
-		}
-		// the subscription was in the tree when the update was accepted: it is forwarded, too
-		if n := len(publishesOn(got, "r")); n != 2 {
-			vsched.Failf("the subscriber (subscribed before the update was accepted) received %d messages on the retained topic, expected the retained one and the forwarded update: %s", n, Describe(publishesOn(got, "r")))
-			return
-		}
-		if t.badStream() {
-			return
-		}
-		vsched.Logf("ok")
-	}})
+			if t.badStream() {
+				return
+			}
+			got := s.rc.Take()
+			if !hasType(got, refcodec.SUBACK) {
+				vsched.Failf("the SUBSCRIBE was not acknowledged: %s", Describe(got))
+				return
+			}
+			if !checkRetained("S", got, map[string]bool{old: true, "new": true}) {
+				return
+			}
+			sawNew, nRetained := false, 0
+			for _, pk := range publishesOn(got, "r") {
+				if string(pk.Payload) == "new" {
+					sawNew = true
+				}
+				if pk.Retain {
+					nRetained++
+				}
+			}
+			if nRetained != 1 || !sawNew {
+				vsched.Failf("the new subscription received %d messages with the retain flag and saw the update: %v: %s", nRetained, sawNew, Describe(publishesOn(got, "r")))
+				return
+			}
+			// the subscription was in the tree when the update was accepted: it is forwarded, too
+			if n := len(publishesOn(got, "r")); n != 2 {
+				vsched.Failf("the subscriber (subscribed before the update was accepted) received %d messages on the retained topic, expected the retained one and the forwarded update: %s", n, Describe(publishesOn(got, "r")))
+				return
+			}
+			if t.badStream() {
+				return
+			}
+			vsched.Logf("ok")
+		}})
+	}
 	// the retained publish is forwarded to a subscriber that is being torn down
 	scs = append(scs, scen{"retained publish || teardown of an existing subscriber", func() {
 		t := newTD()
@@ -459,6 +469,9 @@ func c08sched(c *core.Ctx) {
 			return
 		}
 		sc := sc
+		if only != "" && !strings.Contains(sc.name, only) {
+			continue
+		}
 		d := dev
 		if si < 4 && d < 2 {
 			// the four small "retained replace || subscribe" scenarios: the window between
@@ -466,7 +479,7 @@ func c08sched(c *core.Ctx) {
 			d = 2
 		}
 		st := c.RunSched(explore.SchedOpts{Name: sc.name, Bound: -1, DevBound: d, Cache: true, UseMark: true, Body: sc.body, MaxPoints: 100000, Check: schedCheck, Shard: c.Shard, NShards: c.NShards},
-			func(v *explore.Violation) string { return "C08 " + sc.name + " :: " + violClass(v.Message) })
+			func(v *explore.Violation) string { return prop + " " + sc.name + " :: " + violClass(v.Message) })
 		if st != nil && c.Shard == 0 {
 			c.Rep.Sample(map[string]interface{}{"scenario": sc.name, "deviations": dev, "executions": st.Executions, "states": st.States})
 		}
